@@ -1,0 +1,47 @@
+//go:build verif
+
+package netceptor
+
+// VerifSnapshot is a read-only copy of internal state for the verification harness.
+type VerifSnapshot struct {
+	NodeID    string
+	Epoch     uint64
+	Sequence  uint64
+	Info      map[string][2]uint64 // origin -> {epoch, sequence}
+	Known     map[string]map[string]float64
+	SeenCount int
+	Listeners []string
+	Conns     map[string]float64
+}
+
+// VerifSnapshot returns a copy of the routing-protocol state (verif builds only).
+func (s *Netceptor) VerifSnapshot() VerifSnapshot {
+	out := VerifSnapshot{NodeID: s.nodeID, Epoch: s.epoch, Info: map[string][2]uint64{}, Conns: map[string]float64{}}
+	s.sequenceLock.RLock()
+	out.Sequence = s.sequence
+	s.sequenceLock.RUnlock()
+	s.connLock.RLock()
+	for k, v := range s.connections {
+		out.Conns[k] = v.Cost
+	}
+	s.connLock.RUnlock()
+	s.knownNodeLock.RLock()
+	for k, v := range s.knownNodeInfo {
+		out.Info[k] = [2]uint64{v.Epoch, v.Sequence}
+	}
+	out.Known = verifCopyKnown(s.knownConnectionCosts)
+	s.knownNodeLock.RUnlock()
+	s.seenUpdatesLock.RLock()
+	out.SeenCount = len(s.seenUpdates)
+	s.seenUpdatesLock.RUnlock()
+	s.listenerLock.RLock()
+	for k := range s.listenerRegistry {
+		out.Listeners = append(out.Listeners, k)
+	}
+	s.listenerLock.RUnlock()
+
+	return out
+}
+
+// VerifName returns the node instance label used in trace events.
+func (s *Netceptor) VerifName() string { return s.vn }
